@@ -99,7 +99,7 @@ class C12(Prop):
             "httptest.NewServer, half of them mounted through ServeMux; RelayOption is SendTimeout 30 s with a ping every minute, "
             "or (7% each) SendTimeout 0, SendTimeout 0 and PingDuration 0, PingDuration 0 alone (0 = switched off), no option "
             "at all (the defaults: receive rate 10/s with burst 10, limit 100000 bytes; then a quarter of the valid frames are "
-            "REQs of 40..60 KB with 600..880 ids); half of the ServeMux mounts have a Logger; 4%: SendTimeout 200 ms and a quiet 450 ms before "
+            "REQs of 40..60 KB with 600..880 ids); half of the ServeMux mounts have a Logger; 4%: SendTimeout 600 ms and a quiet 900 ms before "
             "the client's last frame (a write deadline is for one write, not for the connection); 4..15 frames ending with a valid CLOSE/REQ whose "
             "scripted reply is a sentinel; each frame is 50% a message that must be forwarded (REQ/COUNT with 1..3 valid "
             "filters, CLOSE, AUTH with an authentic or an altered event, EVENT signed by the harness over its own NIP-01 "
